@@ -20,11 +20,13 @@ package ev
 
 import (
 	"bufio"
+	"context"
 	"encoding/json"
 	"flag"
 	"fmt"
 	"hash/fnv"
 	"os"
+	"os/exec"
 	"path/filepath"
 	"runtime"
 	"sort"
@@ -540,4 +542,23 @@ func (s *Sink) watchdog() {
 	s.Flush(true)
 	fmt.Printf("HANG sub=%s case=%s\n", sub, trunc(desc, 500))
 	os.Exit(3)
+}
+
+// InChild re-executes this test binary, running only the test named testName with the payload in
+// the environment variable VERIF_CHILD. It is used for inputs that may kill the process (fatal
+// runtime errors cannot be recovered). It returns the child's combined output and whether it
+// exited abnormally (non-zero status or killed by the timeout).
+func InChild(testName, payload string, timeout time.Duration) (out string, abnormal bool) {
+	ctx, cancel := context.WithTimeout(context.Background(), timeout)
+	defer cancel()
+	cmd := exec.CommandContext(ctx, os.Args[0], "-test.run", "^"+testName+"$", "-test.v")
+	cmd.Env = append(os.Environ(), "VERIF_CHILD="+payload, "VERIF_OUT="+filepath.Join(S.OutDir, "child"), "GOTRACEBACK=single")
+	b, err := cmd.CombinedOutput()
+	return string(b), err != nil
+}
+
+// ChildPayload returns the payload when running as a child of InChild.
+func ChildPayload() (string, bool) {
+	p, ok := os.LookupEnv("VERIF_CHILD")
+	return p, ok
 }
